@@ -11,6 +11,7 @@ import random
 from . import bech32
 from .implworld import ImplWorld, decode_msg
 from .procs import canon_msgs, err_kind, outcome
+from .mtmirror import MtMirror, MtMismatch
 
 NS = 10 ** 9
 DAY = 86400
@@ -173,6 +174,7 @@ class History:
         self.running = False
         self.nominated_at = None
         self.tx = 0
+        self.mt = None
 
     # ----- low level -----
     def _compare_call(self, call, res_h):
@@ -292,6 +294,12 @@ class History:
         tx = self.d.call(req)
         self.boot_tx = tx
         self._replay_calls(tx)
+        if self.profile.get("mt"):
+            try:
+                self.mt = MtMirror(self.build, su, self.time, self.height)
+                self.mt.boot(su.admin, su.instantiate_msg(), tx)
+            except MtMismatch as e:
+                raise Divergence(e.channel, e.detail)
         self.stats.bump(self.stats.configs, "oracle=%s treasury=%s fee=%s eqprefix=%s bp=%s ub=%s" % (
             su.oracle_on, su.treasury_on, su.fee, su.native_prefix == su.proto_prefix, su.batch_period, su.unbonding))
         if not tx["committed"]:
@@ -325,6 +333,12 @@ class History:
             if kind in ("exec", "hook", "ack", "timeout", "stray_ack", "stray_timeout"):
                 self._replay_calls(tx)
             self._sync_dump()
+            if self.mt is not None:
+                try:
+                    self.mt.event(ev, tx, self.dump, self._users())
+                    self.stats.bump(self.stats.by_event, "_reference_chain_events")
+                except MtMismatch as e:
+                    raise Divergence(e.channel, e.detail)
             # run-time cross-check of the world-level theorems (MW/Inv/WorldInv.lean): while the history is
             # inside their hypotheses (`envelope`), each proved equation must evaluate to true on the model
             # world -- which the state comparison above has just tied to the implementation
@@ -369,6 +383,8 @@ class History:
         if self.mode == "model":
             self.d.call({"op": "legacy_batches"})
             self._sync_dump()
+            if self.mt is not None:
+                self.mt.legacy_batches()
         else:
             self._impl_dump()
         self.events.append({"ev": "legacy_batches"})
